@@ -33,6 +33,11 @@ type Msg struct {
 	Topic string `json:"topic"`
 	QoS   byte   `json:"qos"`
 	Size  int    `json:"size"` // payload size; 0 = empty payload
+	// Dup: the DUP flag is set (a client resending after a reconnect; the broker has no memory
+	// of the first copy, so this copy is the message). Retain: the RETAIN flag is set (the
+	// message is additionally kept for later subscribers; live delivery is unchanged).
+	Dup    bool `json:"dup,omitempty"`
+	Retain bool `json:"retain,omitempty"`
 }
 
 type Case struct {
@@ -131,7 +136,7 @@ func run(c Case) (f *failure, nontrivial bool) {
 	ids := make([]uint16, len(c.Msgs))
 	for i, m := range c.Msgs {
 		ids[i] = uint16(20000 + i%40000)
-		pubs[m.Pub].Send(sim.EncPublish(m.Topic, []byte(payloadFor(i, m.Size)), m.QoS, false, false, ids[i]))
+		pubs[m.Pub].Send(sim.EncPublish(m.Topic, []byte(payloadFor(i, m.Size)), m.QoS, m.Retain, m.Dup, ids[i]))
 		if c.Burst > 0 && (i+1)%c.Burst == 0 {
 			if f := settle(); f != nil {
 				return f, nontrivial
@@ -294,6 +299,8 @@ func genCase(t *rapid.T, maxMsgs int) Case {
 		default:
 			m.Size = 8
 		}
+		m.Dup = rapid.IntRange(0, 3).Draw(t, "dup") == 0
+		m.Retain = rapid.IntRange(0, 4).Draw(t, "retain") == 0
 		c.Msgs = append(c.Msgs, m)
 	}
 	c.Burst = rapid.SampledFrom([]int{0, 0, 1, 5, 10, 11}).Draw(t, "burst")
